@@ -286,6 +286,10 @@ def rule_external_flag(ck):
 
 
 def run(ck):
+    # "detached with no hardware breakpoints": clear_all only undoes the registered watchpoints, so the image that is
+    # distributed to new threads must follow every add / remove (shared with C14)
+    from rules import C14
+    C14.rule_image(ck)
     rule_external_flag(ck)
     rule_drop(ck)
     rule_restart(ck)
